@@ -26,6 +26,7 @@ CONSTANTS
  NStripes = 3
  KeySets <- %(ks)s
  Deviations = {%(dev)s}
+ LateReleasers = {1}
  MaxHist = 100
  MaxPre = %(pre)d
  defaultInitValue = 0
@@ -49,7 +50,7 @@ def gen(ctx, n, ks, pre, dev):
         if s not in seen:
             seen.add(s)
             d = json.loads(s)
-            out.append({"mode": "threads", "keys": [[NAMES[k] for k in ks_] for ks_ in d["keys"]], "steps": d["steps"]})
+            out.append({"mode": "threads", "keys": [[NAMES[k] for k in ks_] for ks_ in d["keys"]], "steps": d["steps"], "late": [1]})
     return out, r
 
 
@@ -65,19 +66,40 @@ def run_driver(ctx, scheds):
             for s in part:
                 fh.write(json.dumps(s) + "\n")
         p = subprocess.Popen([binp, "-in", inp, "-out", outp], stdout=subprocess.PIPE, stderr=subprocess.STDOUT, text=True)
-        procs.append((p, outp))
-    traces = {}
-    for p, outp in procs:
-        try:
-            out, _ = p.communicate(timeout=1500)
-        except subprocess.TimeoutExpired:
-            p.kill()
-            raise Undecided("latch driver timed out")
-        if p.returncode != 0:
-            raise Undecided("latch driver failed (%d): %s" % (p.returncode, out[-3000:]))
+        procs.append((p, outp, inp, part))
+    traces, crashed = {}, []
+    for p, outp, inp, part in procs:
+        start = 0
+        for attempt in range(40):
+            try:
+                out, _ = p.communicate(timeout=1500)
+            except subprocess.TimeoutExpired:
+                p.kill()
+                raise Undecided("latch driver timed out")
+            if p.returncode == 0:
+                break
+            if "fatal error" not in out:
+                raise Undecided("latch driver failed (%d): %s" % (p.returncode, out[-3000:]))
+            # the code under test aborted the process: keep what was recorded, continue after that schedule
+            last = None
+            for line in open(outp):
+                ev = json.loads(line)
+                if ev["e"] == "Begin":
+                    last = ev
+            if last is None:
+                raise Undecided("latch driver aborted before its first schedule: %s" % out[-1000:])
+            crashed.append((last["s"], out.strip().splitlines()[0][:200]))
+            start = last["i"] + 1
+            if start >= len(part):
+                break
+            p = subprocess.Popen([binp, "-in", inp, "-out", outp, "-from", str(start)], stdout=subprocess.PIPE, stderr=subprocess.STDOUT, text=True)
         for line in open(outp):
             ev = json.loads(line)
-            traces.setdefault(ev["s"], []).append(ev)
+            if ev["e"] != "Begin":
+                traces.setdefault(ev["s"], []).append(ev)
+            else:
+                traces.setdefault(ev["s"], [])
+    ctx.crashed = crashed
     return traces
 
 
@@ -163,6 +185,10 @@ def run(ctx):
                 "Release2": "second Release was not harmless"}.get(pev["e"], "event not explained")
         rp = ctx.save_replay("violation-%d.json" % sid, {"schedule": scheds[sid], "rejected_line": line, "event": pev, "expected": want, "trace": traces[sid][:400]})
         ctx.violation(rp, "%s: %s (keys %s, steps %s; %d failing schedules in total)" % (what, json.dumps(pev), scheds[sid].get("keys"), scheds[sid].get("steps"), len(bysched)))
+    for sid, msg in ctx.crashed[:5]:
+        ctx.notes.append("schedule %d aborted the driver process: %s" % (sid, msg))
+    if ctx.crashed and not bysched:
+        raise Undecided("the code under test aborted the driver process in %d schedules (%s) and no recorded event contradicts the property" % (len(ctx.crashed), ctx.crashed[0][1]))
     if hung and not bysched:
         raise Undecided("%d free-running runs did not finish within the time limit and no gated schedule failed (no scheduler there: not a verdict)" % len(hung))
     if hung:
